@@ -127,7 +127,7 @@ def impl_run(nprev, reported, dur, prev_pass):
     rec = None if (reported is None and placeholder_left) else (last.lower() if last else "unknown")
     if reported is not None and placeholder_left:
         rec = "unknown"     # result appended but placeholder not removed: never matches
-    return suffix, rec, bool(ret), n.prefix == "1" and seen["placeholder"]
+    return suffix, rec, bool(ret), n.prefix == "1" and seen["placeholder"], len(n.results) - nprev
 
 
 def impl_verdict(tests):
@@ -236,8 +236,10 @@ def run(ctx, replay=None):
             # a retry that reuses an identifier, reads another result, or reports success for error/fail is the property failing
             n, rep, dur, prev = ncases[k]
             o = outs[k]
+            # ... and so is an execution that leaves no entry (its result, or the pending placeholder when nothing was
+            # reported) on the node: the next try would reuse its identifier and the try would not count
             broken = o[0] != n or (rep is not None and o[1] not in (rep, "warn")) or \
-                (o[2] != (rep not in (None, "error", "fail")))
+                (o[2] != (rep not in (None, "error", "fail"))) or o[4] != 1
             ctx.fail("C10:run_test_node:" + ("rule" if broken else "correspondence"),
                      "run_test_node: " + ("identifier / own result / return value rule violated" if broken else "differs from Model/Retry.v"),
                      {"run": list(ncases[k]), "impl": list(o), "obligation": "correspondence:run_test_node"}, broken)
